@@ -27,6 +27,36 @@ Img(e) ==
     [] e.k = "sysex" -> <<240, 0, 0, <<240>> \o e.b>>
     [] e.k = "sysex7" -> <<240, 0, 0, <<247>> \o e.b>>       \* F7 escape event: delivered with the status byte it has in the file
     [] OTHER -> <<0, 0, 0, <<>>>>
+\* Loop controllers of SMF files, decided while the file is PARSED (tracks in file order, events in track order) by a
+\* three-state automaton kept per load (m_loopFormat: "def" -> "hmi" -> "emidi"):
+\*   def:   CC110 becomes the loop start and switches to hmi;   CC111 is the loop start (RPG-Maker style)
+\*   hmi:   CC111 becomes the loop END;   a second CC110 stays a plain controller and switches to emidi
+\*   emidi: CC110 / CC111 stay plain controllers;   CC113 is delivered as CC7 (EMIDI volume)
+\* Songs carry CC110 / CC113 as plain "cc" events and CC111 as kind "cc111"; NormTracks rewrites them into the kinds the rest
+\* of the specifications know ("cc111" = loop start by controller, "loopend", plain "cc").  Every load starts in "def".
+NormEvent(e, st) ==
+  IF e.k = "cc" /\ e.n = 110
+  THEN IF st = "def" THEN [e |-> [k |-> "cc111", ch |-> 0, v |-> 0], st |-> "hmi"]
+       ELSE IF st = "hmi" THEN [e |-> e, st |-> "emidi"] ELSE [e |-> e, st |-> st]
+  ELSE IF e.k = "cc111" \/ (e.k = "cc" /\ e.n = 111)
+  THEN IF st = "hmi" THEN [e |-> [k |-> "loopend"], st |-> st]
+       ELSE IF st = "emidi" THEN [e |-> [k |-> "cc", ch |-> e.ch, n |-> 111, v |-> e.v], st |-> st]
+       ELSE [e |-> [k |-> "cc111", ch |-> 0, v |-> 0], st |-> st]
+  ELSE IF e.k = "cc" /\ e.n = 113 /\ st = "emidi" THEN [e |-> [e EXCEPT !.n = 7], st |-> st]
+  ELSE [e |-> e, st |-> st]
+RECURSIVE NormEvs(_, _, _, _)
+NormEvs(evs, i, st, acc) ==
+  IF i > Len(evs) THEN [evs |-> acc, st |-> st]
+  ELSE LET r == NormEvent(evs[i][2], st) IN NormEvs(evs, i + 1, r.st, Append(acc, <<evs[i][1], r.e>>))
+RECURSIVE NormTracksFrom(_, _, _, _)
+NormTracksFrom(tracks, ti, st, acc) ==
+  IF ti > Len(tracks) THEN acc
+  ELSE LET r == NormEvs(tracks[ti].ev, 1, st, <<>>) IN
+       NormTracksFrom(tracks, ti + 1, r.st, Append(acc, [tracks[ti] EXCEPT !.ev = r.evs]))
+HasLoopCtl(tracks) == \E ti \in DOMAIN tracks : \E i \in DOMAIN tracks[ti].ev :
+                        LET e == tracks[ti].ev[i][2] IN e.k = "cc" /\ e.n \in {110, 111, 113}
+NormTracks(tracks) == IF HasLoopCtl(tracks) THEN NormTracksFrom(tracks, 1, "def", <<>>) ELSE tracks
+
 \* ordering classes at one tick: "ctl" (controllers, program, wheel, channel pressure), "on", "off", "other"
 Cls(e) == CASE e.k \in {"cc", "pc", "bend", "cat"} -> "ctl"
             [] e.k = "on" /\ e.v > 0 -> "on"
